@@ -276,6 +276,10 @@ def passthrough_cases(tier, seed):
                     if gt is None or len(gt) == 2:
                         out.append({"ref": name, "spec": spec, "gt": gt, "sampler": sampler, "mode": mode,
                                     "npseed": 3 * seed + 1, "late": True})
+                    if gt is None:
+                        # the same computation when CBC is unusable (every alignment goes through the GLPK fall-back)
+                        out.append({"ref": name, "spec": spec, "gt": gt, "sampler": sampler, "mode": mode,
+                                    "npseed": 3 * seed + 2, "backend": "glpk_noimport"})
     return out
 
 
@@ -290,6 +294,7 @@ def run_passthrough(case):
     smp = make_smp()
     np.random.seed(case["npseed"])
     probs = []
+    A.set_backend(case.get("backend", "cbc"))
     try:
         with serial_pool():
             if case.get("reuse"):
@@ -315,6 +320,8 @@ def run_passthrough(case):
                                  f"computation read at once gives {now}")
     except Exception as e:  # noqa
         return [f"compute_gamma raised: {type(e).__name__}: {e}"], None
+    finally:
+        A.set_backend("cbc")
     byann = dict(spec_by_annotator(case["spec"]))
     gt = sorted(case["gt"]) if case["gt"] else sorted(byann)
     if len(res.chance_alignments) != 3:
@@ -349,6 +356,14 @@ def run_passthrough(case):
                 probs.append(f"chance alignment disorder {dis} but {case['mode']} optimum of its continuum is {opt}")
     exp = float(np.mean([float(al.disorder) for al in res.chance_alignments]))
     obs = float(res.observed_disorder)
+    if not case.get("late") and not case.get("reuse"):
+        # the observed disorder is the requested mode's optimum for the input (fast: never below the exact optimum)
+        opt_in = optimum(case["spec"], RECIPE, cover=(case["mode"] == "soft"))
+        if case["mode"] == "fast":
+            if obs < opt_in * (1 - 1e-5) - 1e-7:
+                probs.append(f"observed disorder {obs} of the fast mode is below the exact optimum {opt_in} of the input")
+        elif not close(obs, opt_in):
+            probs.append(f"observed disorder {obs} but the {case['mode']} optimum of the input continuum is {opt_in}")
     g = 1.0 if obs == 0 else 1 - obs / exp
     if not close(float(res.gamma), g):
         probs.append(f"gamma {res.gamma} but 1 - observed/expected = {g}")
